@@ -252,10 +252,47 @@ def t_scale_system(ctx, rng, drv_lines, keep):
     o1 = lensgen.build(d)
     o2 = lensgen.build(scaled_desc(d, s))
     case = {'desc': d, 'transform': 'scale_system', 's': s}
+    nsf = len(d['surfaces'])
+    deps = []
+    if nsf >= 4 and rng.random() < 0.3:
+        # dependent parameters: pickups with an offset, a marginal-ray-height solve at a non-zero height.  Their
+        # offsets / heights are lengths that scale_system does not rescale, so "the scaled lens" is the current
+        # prescription (dependent values included) with every length multiplied by s
+        i, j = rng.sample(range(1, nsf - 1), 2)
+        kind = rng.choice(['radius', 'thickness'])
+        finite = lambda k: math.isfinite(float(np.ravel(o1.surface_group.radii)[k]))       # noqa
+        if kind == 'radius' and finite(i) and finite(j):
+            deps.append(['pk', i, 'radius', j, rng.choice([1.0, -1.0, 0.5, 2.0]), lensgen.dyadic(rng, -20, 20, 2)])
+        elif kind == 'thickness' and max(i, j) < nsf - 2:
+            deps.append(['pk', i, 'thickness', j, rng.choice([1.0, 0.5, 2.0]), lensgen.dyadic(rng, 0.5, 10, 2)])
+        if rng.random() < 0.5:
+            deps.append(['sv', nsf - 1, lensgen.dyadic(rng, -1, 1, 4)])
+        bad = [op for op in deps if c01.apply_op(o1, tuple(op)) is not None]
+        if bad or c01.apply_op(o1, ('up',)) is not None:
+            ctx.count('scale_system: dependent parameters rejected')
+            return
+        case['dependent'] = deps
+        pre = c01.snap(o1)
+        if not all(math.isfinite(v) or math.isinf(v) for v in pre['radius']) or \
+                not all(math.isfinite(v) for v in pre['z'][1:]):
+            ctx.count('scale_system: dependent parameters give a degenerate lens')
+            return
     try:
         o1.scale_system(s)
     except Exception as e:  # noqa
         ctx.fail('scale_system succeeds', case, type(e).__name__)
+        return
+    if deps:
+        a = c01.snap(o1)
+        for f in ('radius', 'z'):
+            for i, (u, v) in enumerate(zip(a[f], pre[f])):
+                if f == 'z' and i == 0:
+                    continue
+                if not rel_close(u, v * s, 1e-10, 1e-10 * max(1, s)):
+                    ctx.fail('scale_system produces exactly the scaled lens (%s of surface %d, lens with pickups / '
+                             'solves)' % (f, i), case, u, v * s)
+                    return
+        ctx.count('rel ok: scale_system with dependent parameters')
         return
     a, b = c01.snap(o1), c01.snap(o2)
     for f in ('radius', 'conic', 'z'):
